@@ -353,11 +353,11 @@ func genErrStreamCase(t *rapid.T) ErrStreamCase {
 func TestC17_Mem(t *testing.T) {
 	rec := evid.New("C17", "c17_mem", "rapid: the C08 malformed-input generator for Binary.Skip (cuts, structural/size perturbations, nesting 1..70, arbitrary type tags) and cut/hostile-size/bad-version variants of valid inputs for every Binary.Read* and ReadMessageBegin; each failing call must return a *ProtocolException whose TypeId is the one Thrift assigns to the cause found by the reference (truncation/unknown type -> INVALID_DATA, negative size -> NEGATIVE_SIZE, version -> BAD_VERSION, nesting -> DEPTH_LIMIT; tolerances: negative name length in a message header, nesting level 64, a too-deep value of which no byte exists); non-trivial = failing input of >= 4 bytes or a cause other than INVALID_DATA")
 	defer rec.Flush()
-	runRapid(t, rec, "c17_mem", evid.Pick(8000, 30000), genErrMemCase, checkErrMem)
+	runRapid(t, rec, "c17_mem", evid.Pick(60000, 100000), genErrMemCase, checkErrMem)
 }
 
 func TestC17_MemExhaustive(t *testing.T) {
-	k := evid.Pick(4, 5)
+	k := evid.Pick(5, 6)
 	rec := evid.New("C17", "c17_mem_exhaustive", fmt.Sprintf("bounded-exhaustive: every byte string of length 0..%d over the grammar alphabet x (11 valid type tags + 8 others) through Binary.Skip, and through every Binary.Read*/ReadMessageBegin (prefixed with the strict version word for msg); distinct by construction", k))
 	defer rec.Flush()
 	types := append([]int8{0, 1, 5, 16, 0x7f, -128, -117, -1}, ref.Types...)
@@ -473,5 +473,5 @@ func TestC17_Stream(t *testing.T) {
 		}
 	}
 	rec.Merge(b)
-	runRapid(t, rec, "c17_stream", evid.Pick(4000, 20000), genErrStreamCase, checkErrStream)
+	runRapid(t, rec, "c17_stream", evid.Pick(30000, 50000), genErrStreamCase, checkErrStream)
 }
